@@ -8,7 +8,7 @@ import (
 	"github.com/mandykoh/prism/zzverif/rd"
 )
 
-var verifC19N = 12
+var verifC19N = 16
 
 // verifAutoMatches: autometa.Load must return what the first succeeding specific
 // loader returns on the complete input (each seeing the stream from its first byte),
@@ -49,8 +49,10 @@ func verifAutoMatches(in []byte) {
 	}
 }
 
+// VerifHarness_C19_Arbitrary: every input of every length 0..N (the length decides where
+// each candidate meets the end of the stream).
 func VerifHarness_C19_Arbitrary() {
-	verifAutoMatches(verifBytes(verifC19N))
+	verifAutoMatches(verifBytes(verifChoice(verifC19N + 1)))
 }
 
 func VerifHarness_C19_Skeleton() {
